@@ -171,6 +171,9 @@ class Fn:
     binders: object = None  # Lean binder text before the parameters (None: the sheet's BINDERS)
     prop: bool = False      # decorated `@property`
     doc: str = ""
+    defaults: dict = dataclasses.field(default_factory=dict)  # parameter -> the literal text of its default in the signature (checked); a call may then omit it
+    literal_kw: tuple = ()  # parameters that call sites may only pass as a literal constant (anything else is refused)
+    inline: bool = False    # a method whose body is a single `return <expr>`: not emitted, expanded at every call site (checked on every run)
 
 
 @dataclasses.dataclass
@@ -268,9 +271,24 @@ class Tr:
         if v.kind == "lean":
             return v
         if v.kind == "tuple":
-            items = [self.lean(x) for x in v.items]
+            unit = getattr(self.sheet, "NONE_IN_TUPLE_IS_UNIT", False)
+            items = [V("Unit", "()") if (x.kind == "none" and unit) else self.lean(x) for x in v.items]
             return V(T(*[x.ty for x in items]), "(" + ", ".join(x.code for x in items) + ")")
+        if v.kind == "fn" and v.items.get("kind") == "fn" and getattr(self.sheet, "NESTED_AS_VALUES", False):
+            # a nested def handed on as a value (`lax.scan(step, …)`): the partial application to its captured variables
+            info = v.items
+            return V(F([t for _, t in info["params"]], info["ret"], info["monadic"]), " ".join([info["lean"]] + info["captured"]))
         raise Refuse(f"a {v.kind} value where a Lean {what} is needed")
+
+    def adapt(self, v, ty):
+        """an int literal where the sheet's scalar type is expected (`(x, 0)` as the initial carry of a scan whose body adds
+        scalars to it: JAX promotes the weakly typed `0`), also inside tuple displays; everything else unchanged"""
+        conv = getattr(self.sheet, "INT_LITERAL_AS", {})
+        if v.kind == "lean" and isinstance(v.lit, int) and not isinstance(v.lit, bool) and ty in conv and v.ty == NAT:
+            return V(ty, conv[ty].format(v.lit))
+        if v.kind == "tuple" and isinstance(ty, tuple) and ty[0] == "Tup" and len(ty) - 1 == len(v.items):
+            return V(kind="tuple", items=[self.adapt(x, t) for x, t in zip(v.items, ty[1:])])
+        return v
 
     def coerce(self, v, ty):
         """`v` as a value of type `ty` (only an empty display / None change shape)"""
@@ -386,6 +404,10 @@ class Tr:
                     return No("`None` of undetermined type")
             return No("`None` where no optional is expected")
         try:
+            try:
+                v = self.adapt(v, subst(spec, dict(s)))
+            except Refuse:
+                pass   # the expected type is not determined yet
             v = self.lean(v)
         except Refuse as ex:
             return No(str(ex))
@@ -697,7 +719,14 @@ class Tr:
         for k in kws:
             if k.arg not in names or k.arg in bound:
                 raise Refuse(f"`{what[:60]}`: keyword `{k.arg}`")
+            if k.arg in info.get("literal_kw", ()) and not isinstance(k.value, ast.Constant):
+                raise Refuse(f"`{what[:60]}`: keyword `{k.arg}` is not a literal")
             bound[k.arg] = self.ex(k.value)
+        for p, txt in info.get("defaults", {}).items():
+            if p not in bound:
+                bound[p] = self.ex(ast.parse(txt, mode="eval").body)   # the default written in the signature (checked there)
+        if info.get("inline"):
+            return self.call_inline(info, bound, what)
         s, codes = {}, []
         for p, t in info["params"]:
             if t == UNUSED:
@@ -713,6 +742,19 @@ class Tr:
         if info["monadic"]:
             return self.emit_bind(self.tmp(), ret, code)
         return V(ret, code)
+
+    def call_inline(self, info, bound, what=""):
+        """a method whose body is `return <expr>`: the expression is translated in place, its parameters bound to the arguments"""
+        for p, t in info["params"]:
+            if p not in bound:
+                raise Refuse(f"`{what[:60]}` is called without `{p}`")
+        saved = (self.env, self.narrow)
+        self.env = {("self" if p == "self" else p): v for p, v in bound.items()}
+        self.narrow = {}
+        try:
+            return self.ex(info["ret_expr"])
+        finally:
+            self.env, self.narrow = saved
 
     def call_fn(self, info, args, kws, what=""):
         """direct call of a nested def"""
@@ -797,6 +839,28 @@ class Tr:
             return self.bind_name(tgt.id, V(kind="dict", items=items))
         if isinstance(tgt, ast.Name):
             return self.bind_name(tgt.id, self.ex(st.value))
+        if isinstance(tgt, ast.Tuple) and any(isinstance(e, ast.Tuple) for e in tgt.elts) and getattr(self.sheet, "NESTED_TARGETS", False):
+            # `(a, b), c = e`: the value is bound once, the names are its projections (no name may occur twice)
+            v = self.lean(self.ex(st.value))
+            t = v if re.fullmatch(r"t\d+", v.code) else self.emit_let(self.tmp(), v, ascribe=False)
+            leaves = []
+
+            def destruct(pat, ty, code):
+                if isinstance(pat, ast.Name):
+                    leaves.append((pat.id, V(ty, code)))
+                elif isinstance(pat, ast.Tuple) and isinstance(ty, tuple) and ty[0] == "Tup" and len(ty) - 1 == len(pat.elts):
+                    for i, (q, u) in enumerate(zip(pat.elts, ty[1:])):
+                        destruct(q, u, proj(code, i, len(pat.elts)))
+                else:
+                    raise Refuse(f"target `{ast.unparse(pat)}` does not match a value of type {ty}")
+
+            destruct(tgt, t.ty, t.code)
+            names = [nm for nm, _ in leaves]
+            if len(set(names)) != len(names):
+                raise Refuse(f"a name occurs twice in the target `{ast.unparse(tgt)}`")
+            for nm, x in leaves:
+                self.bind_name(nm, x)
+            return
         if isinstance(tgt, ast.Tuple) and all(isinstance(e, ast.Name) for e in tgt.elts):
             v = self.ex(st.value)
             if v.kind == "lean" and isinstance(v.ty, tuple) and v.ty[0] == "Tup":
@@ -1041,6 +1105,16 @@ class Tr:
                     raise Refuse(f"decorator `{d}`")
             if fn.prop != ("property" in decs):
                 raise Refuse("`@property` differs from the sheet")
+            a = self.node.args
+            pos = a.posonlyargs + a.args
+            have = {x.arg: ast.unparse(d) for x, d in zip(pos[len(pos) - len(a.defaults):], a.defaults)}
+            have.update({x.arg: ast.unparse(d) for x, d in zip(a.kwonlyargs, a.kw_defaults) if d is not None})
+            for p, txt in fn.defaults.items():
+                if have.get(p) != txt:
+                    raise Refuse(f"the default of `{p}` is `{have.get(p)}`, the sheet expects `{txt}`")
+            for p in fn.literal_kw:
+                if p not in [x.arg for x in a.kwonlyargs]:
+                    raise Refuse(f"`{p}` is not a keyword-only parameter")
             for d in self.node.decorator_list:
                 for x in ast.walk(d):
                     if isinstance(x, ast.Name):
@@ -1069,7 +1143,8 @@ class Tr:
         params = ([("self", self.self_ty)] if is_method and self.self_ty is not None else []) + list(self.params)
         return dict(lean=self.lean_name, params=params, ret=self.ret.ty, monadic=monadic, usesW=usesW, tyvars=fn.tyvars, prop=fn.prop,
                     kind=nested_kind or "top", captured=(["W"] if usesW and nested_kind is not None else []) + [v.code for _, v in caps],
-                    captured_py=[nm for nm, _ in caps], file=fn.file)
+                    captured_py=[nm for nm, _ in caps], file=fn.file, defaults=dict(fn.defaults) if nested_kind is None else {},
+                    literal_kw=tuple(fn.literal_kw) if nested_kind is None else ())
 
     def translate_wrapper(self, node, extra_params):
         """the `*args` wrapper of a decorator: only `<name>_raises : Bool` is emitted (its last statement hands on to the method)"""
@@ -1233,6 +1308,18 @@ class Gen:
         sheet, errors = self.sheet, []
         for (head, f), t in getattr(sheet, "FIELDS", {}).items():
             self.fields[(head, f)] = t
+        for cname, want in getattr(sheet, "CLASS_FIELDS", {}).items():
+            # the annotated fields of a class whose structure is hand-declared in the world must be exactly the sheet's
+            try:
+                found = [x for x in self.tree(sheet.FILE).body if isinstance(x, ast.ClassDef) and x.name == cname]
+                if len(found) != 1:
+                    raise Refuse(f"class `{cname}` is defined {len(found)} times")
+                have = [st.target.id for st in found[0].body if isinstance(st, ast.AnnAssign) and isinstance(st.target, ast.Name)]
+                if have != list(want):
+                    raise Refuse(f"class `{cname}` declares the fields {have}, the sheet expects {list(want)}")
+            except (Refuse, OSError, SyntaxError) as ex:
+                errors.append({"target": cname, "error": f"{sheet.FILE}::{cname}: {ex}"})
+                self.emit(f"-- UNTRANSLATABLE class {cname}: {ex}\n")
         for item in sheet.ITEMS:
             mark = len(self.out)
             name = item.lean
@@ -1243,6 +1330,17 @@ class Gen:
                     continue
                 node = self.find(item.file, item.qual)
                 is_method = "." in item.qual
+                if item.inline:
+                    tr = Tr(self, item, node, item.lean, item.params, self_ty=item.self_ty)
+                    tr.check_signature(node, is_method)
+                    body = [b for b in node.body if not (isinstance(b, ast.Expr) and isinstance(b.value, ast.Constant))]
+                    if node.decorator_list or not is_method or item.self_ty is None or not (len(body) == 1 and isinstance(body[0], ast.Return) and body[0].value is not None):
+                        raise Refuse("an inlined method must be undecorated and consist of a single `return <expr>`")
+                    head = item.self_ty[0] if isinstance(item.self_ty, tuple) else item.self_ty
+                    self.methods[(head, item.qual.split(".")[-1])] = dict(
+                        inline=True, prop=False, ret_expr=body[0].value, params=[("self", item.self_ty)] + list(item.params), file=item.file)
+                    self.emit(f"-- `{item.file}` :: `{item.qual}` is expanded in place at every call site (`return {ast.unparse(body[0].value)}`)\n")
+                    continue
                 tr = Tr(self, item, node, item.lean, item.params, self_ty=item.self_ty)
                 info = tr.translate(is_method=is_method)
                 self.check_bindings(item.file)
@@ -1266,7 +1364,7 @@ class Gen:
         return {"text": text, "errors": errors, "targets": [i.lean for i in sheet.ITEMS]}
 
 
-SHEETS = ["targets_losses", "targets_dist_public"]
+SHEETS = ["targets_losses", "targets_dist_public", "targets_jaxtr"]
 
 
 def generate(repo: str) -> dict:
